@@ -118,7 +118,7 @@ def _compact(r):
 
 def sweep(tier, seed, weights=None):
     count, shards = SIZES[tier]
-    boxcfgs = list(C.box(tier)) + list(C.large_n_probes(tier))
+    boxcfgs = list(C.box(tier)) + list(C.large_n_probes(tier)) + list(C.deep_repeat_probes(tier))
     box_results = R.pmap(_exec, boxcfgs)
     gen = R.pmap(_shard, [(tier, seed, s, count, weights) for s in range(shards)], chunksize=1)
     gen_results = [r for part in gen for r in part]
@@ -132,9 +132,11 @@ def run(prop, args):
     boxcfgs, box_results, gen_results = sweep(args.tier, args.seed, C09_WEIGHTS if prop == "C09" else None)
     N = 10 if args.tier == "quick" else 24
     rep.exhaustive = [{"box": "every class variant, n<=%d, all unit counts 0..n+1 (HRevolve RAM<=6, DISK<=4), all splits/trajectories/storages, period<=6, binomial_snapshots<=4, 6 cost vectors" % N,
-                       "cases": len(boxcfgs) - len(list(C.large_n_probes(args.tier))), "exhaustive": True},
+                       "cases": len(boxcfgs) - len(list(C.large_n_probes(args.tier))) - 4, "exhaustive": True},
                       {"box": "large-n probes: 14 configs per n in %s" % (list(C.LARGE_N) + ([] if args.tier == "quick" else [401, 512, 513])),
-                       "cases": len(list(C.large_n_probes(args.tier))), "exhaustive": True}]
+                       "cases": len(list(C.large_n_probes(args.tier))), "exhaustive": True},
+                      {"box": "deep repetition probes: %d adjoint passes (beyond the default recursion limit) on SingleMemory, SingleDisk(copy), TwoLevel x2" % (
+                          1300 if args.tier == "quick" else 5000), "cases": 4, "exhaustive": True}]
     rep.extra["generated_cases"] = len(gen_results)
     rep.extra["box_cases"] = len(box_results)
     seen = set()
@@ -253,6 +255,11 @@ def violates(prop, cfg, bucket):
 
 
 def shrink(prop, bucket, witness):
+    if violates(prop, witness, bucket) is None:
+        # seen in a worker that had run other schedules before, not reproducible from this config
+        # alone: the violation depends on process history (C15's kind of defect). Keep the witness
+        # and the detail recorded by the sweep; the replay file is marked accordingly.
+        return None
     small = C.shrink(witness, lambda c: violates(prop, c, bucket) is not None)
     return small, violates(prop, small, bucket) or ""
 
